@@ -183,3 +183,17 @@ impl ProgBuilder {
 pub fn names_vec<const N: usize>(a: [&'static str; N]) -> Vec<String> {
     a.iter().map(|s| s.to_string()).collect()
 }
+
+/// Remote helper closures registered by the glue (see `render_helpers`).
+#[allow(clippy::type_complexity)]
+pub struct ExecHelper(pub Box<dyn Fn(&str, Option<Vec<sylvia::cw_std::Coin>>, &[Value]) -> Result<sylvia::cw_std::WasmMsg, String> + Send + Sync>);
+#[allow(clippy::type_complexity)]
+pub struct QueryHelper(pub Box<dyn Fn(&Harness, &str, &[Value]) -> Result<Value, String> + Send + Sync>);
+#[allow(clippy::type_complexity)]
+pub struct InstHelper(pub Box<dyn Fn(u64, &[Value]) -> Result<sylvia::builder::instantiate::InstantiateBuilder, String> + Send + Sync>);
+
+impl Prog {
+    pub fn extra<T: 'static>(&self, key: &str) -> Option<&T> {
+        self.extras.get(key).and_then(|b| b.downcast_ref::<T>())
+    }
+}
